@@ -87,7 +87,7 @@ def grid8(x, up=False):
     return (math.ceil(x * 8) if up else math.floor(x * 8)) / 8.0
 
 
-def gen_case(rng, fl):
+def gen_case(rng, fl, with_history=True):
     lo, hi = fluid_range(fl)
     for _ in range(50):
         if rng.random() < 0.5 and min(hi - 40, 150) - max(lo, -40) > 10:
@@ -105,8 +105,15 @@ def gen_case(rng, fl):
             seq.insert(rng.randint(0, len(seq)), "cond")
         if not any(r in ("evap", "both") for r in seq):
             seq.insert(rng.randint(0, len(seq)), "evap")
-        return dict(fluid=fl, Te=te, Tc=tc, sh=rng.choice([0.0, 0.0, 2.5, 5.0, 10.0]), sc=rng.choice([0.0, 0.0, 2.5, 5.0]),
-                    eta=rng.choice([0.5, 0.625, 0.75, 0.875, 1.0]), Q=rng.choice([1.0, 2.5, 100.0, 1000.0]), reqs=seq)
+        c = dict(fluid=fl, Te=te, Tc=tc, sh=rng.choice([0.0, 0.0, 2.5, 5.0, 10.0]), sc=rng.choice([0.0, 0.0, 2.5, 5.0]),
+                 eta=rng.choice([0.5, 0.625, 0.75, 0.875, 1.0]), Q=rng.choice([1.0, 2.5, 100.0, 1000.0]), reqs=seq)
+        if with_history and rng.random() < 0.35:
+            # the object has a history: it was solved for another operating point of the same fluid and asked for its streams before;
+            # the answer for THIS operating point must not depend on that (keep: re-solved with refrigerant=None = keep the loaded fluid)
+            pre = gen_case(rng, fl, with_history=False)
+            if pre is not None:
+                c["pre"] = dict(Te=pre["Te"], Tc=pre["Tc"], sh=pre["sh"], sc=pre["sc"], eta=pre["eta"], Q=pre["Q"], keep=rng.random() < 0.7)
+        return c
     return None
 
 
@@ -116,6 +123,8 @@ CORPUS = [
     dict(fluid="R134a", Te=10.0, Tc=60.0, sh=5.0, sc=2.5, eta=0.75, Q=100.0, reqs=["cond", "evap"]),
     dict(fluid="R134a", Te=10.0, Tc=60.0, sh=0.0, sc=0.0, eta=0.75, Q=100.0, reqs=["evap", "cond", "evap", "both", "none", "cond"]),
     dict(fluid="Ammonia", Te=-5.0, Tc=35.0, sh=2.5, sc=0.0, eta=1.0, Q=1.0, reqs=["evap", "both", "evap"]),
+    dict(fluid="R134a", Te=10.0, Tc=60.0, sh=5.0, sc=2.5, eta=0.75, Q=250.0, reqs=["cond", "evap"],
+         pre=dict(Te=0.0, Tc=35.0, sh=0.0, sc=0.0, eta=0.625, Q=100.0, keep=True)),          # object re-used for a second operating point
     # D27 (fixed fb8f317): lift under 5 K with no internal exchanger requested: COP_h = COP_r + 1
     dict(fluid="R134a", Te=10.0, Tc=13.0, sh=0.0, sc=0.0, eta=0.75, Q=1.0, reqs=["both"]),
     dict(fluid="R134a", Te=10.0, Tc=13.0, sh=2.5, sc=0.0, eta=0.5, Q=2.5, reqs=["cond", "evap"]),
@@ -134,8 +143,19 @@ def run_impl(c):
     """Observed outputs of the real class, or dict(raised=...)."""
     from OpenPinch.classes import SimpleHeatPumpCycle
     hp = SimpleHeatPumpCycle()
+    fluid = c["fluid"]
+    if c.get("pre"):
+        pre = c["pre"]
+        try:
+            hp.solve(pre["Te"], pre["Tc"], dT_sh=pre["sh"], dT_sc=pre["sc"], eta_comp=pre["eta"], refrigerant=c["fluid"],
+                     ihx_gas_dt=0.0, Q_h_total=pre["Q"])
+            hp.build_stream_collection(include_cond=True, include_evap=True)
+            if pre.get("keep"):
+                fluid = None
+        except Exception:  # noqa: BLE001   (the earlier operating point is only history; its own failures are judged when it is a case)
+            hp = SimpleHeatPumpCycle()
     try:
-        hp.solve(c["Te"], c["Tc"], dT_sh=c["sh"], dT_sc=c["sc"], eta_comp=c["eta"], refrigerant=c["fluid"],
+        hp.solve(c["Te"], c["Tc"], dT_sh=c["sh"], dT_sc=c["sc"], eta_comp=c["eta"], refrigerant=fluid,
                  ihx_gas_dt=0.0, Q_h_total=c["Q"])
     except Exception as e:  # noqa: BLE001
         return dict(raised=f"solve: {type(e).__name__}: {str(e)[:80]}")
@@ -386,6 +406,7 @@ def cycle_suite(ctx):
         ctx.evaluations += 1
         lift = c["Tc"] - c["Te"]
         ctx.count("lift_lt_5" if lift < 5 else "lift_ge_5")
+        ctx.count("object_with_history" if c.get("pre") else "fresh_object")
         ctx.count(f"sh0={c['sh'] == 0},sc0={c['sc'] == 0}")
         if v is None:
             raised += 1
